@@ -1261,7 +1261,21 @@ def make_namespace(rng):
         p = par + "/" + name if par else name
         if p not in out:
             out.append(p)
+    # a sibling whose name sorts between a directory and that directory's contents
+    # ("d", "d-x", "d/e"): trips code that relies on sorted path order
+    dirs = sorted({parent(p) for p in out if parent(p)})
+    if dirs and rng.random() < 0.4:
+        sib = rng.choice(dirs) + rng.choice(["-x", ".x"])
+        if len(out) >= 6:
+            out.remove(rng.choice([p for p in out if not any(strictly_inside(p, q) for q in out)]))
+        out.append(sib)
     return sorted(out)
+
+
+def minimal_filter(paths):
+    """`paths` without those that lie inside another one (the same selection)."""
+    ps = sorted(set(paths))
+    return [p for p in ps if not any(q != p and inside(q, p) for q in ps)]
 
 
 def swarm_weights(rng):
@@ -1535,6 +1549,36 @@ def quiet():
         lg.removeHandler(h)
     lg.addHandler(logging.NullHandler())
     lg.propagate = False
+
+
+def install_order_pin():
+    """Determinism pin (idempotent).  With two or more search roots the dirstate
+    iter_changes (Rust) walks them in the iteration order of a hash set whose keys are
+    drawn per thread, so the order of its results - and with it the order in which commit
+    inserts texts, i.e. the bytes and the content-hash NAME of the pack it writes - differs
+    from one execution of a run to the next.  The results of such calls are handed on
+    sorted by path (parents still come before their children); nothing is added or dropped,
+    duplicates stay."""
+    from breezy import osutils
+    from breezy.bzr import workingtree_4 as w4
+
+    cls = w4.InterDirStateTree
+    if getattr(cls.iter_changes, "_verif_pin", False):
+        return
+    orig = cls.iter_changes
+
+    def key(c):
+        p = c.path[1] if c.path[1] is not None else c.path[0]
+        return ((p or "").split("/"), c.path[1] is None, c.file_id or b"", c.path[0] or "")
+
+    def iter_changes(self, include_unchanged=False, specific_files=None, pb=None, extra_trees=None, require_versioned=True, want_unversioned=False):
+        it = orig(self, include_unchanged, specific_files, pb, extra_trees, require_versioned, want_unversioned=want_unversioned)
+        if not specific_files or len(osutils.minimum_path_selection(specific_files)) < 2:
+            return it
+        return iter(sorted(it, key=key))
+
+    iter_changes._verif_pin = True
+    cls.iter_changes = iter_changes
 
 
 def settle_randomness(seed):
